@@ -16,8 +16,9 @@ THOROUGH_TIED = [(3, 2, 3), (4, 2, 2), (3, 3, 2)]
 def run(tier):
     common.bind_repo()
     rep = Report(PID, tier, 'model_checking')
-    bl = hjcommon.QUICK_BOUNDS if tier == 'quick' else hjcommon.THOROUGH_BOUNDS
+    bl = hjcommon.QUICK_BOUNDS[:3] if tier == 'quick' else hjcommon.THOROUGH_BOUNDS      # the deep and tied enumerations below go further
     hjcommon.explore(rep, ('C03',), bl, ('C03',))
+    hjcommon.probe_long_cards(rep, ('C03',))
     deep = QUICK_DEEP if tier == 'quick' else THOROUGH_DEEP
     dt = dict(nodes=0, leaves=0, terminal_checked=0, jumpoffs=0)
     for (n, R, J) in deep:
